@@ -974,6 +974,418 @@ def call_parts(ctx, seed):
     return [("A3", [e for e in ents if not e.startswith("jobmap")]), ("A3", [e for e in ents if e.startswith("jobmap")])]
 
 
+# -------------------------------------------------------------------------------------------------
+# part A4 : the environment (PATH) in force when a driver is created
+# -------------------------------------------------------------------------------------------------
+TOOL = "c17tool"
+
+
+def path_histories(L, max_path, max_new, max_use):
+    """Every history of at most L ops over ("path", A|B|N) - put tool directory A / B / none first on PATH -,
+    ("new", bare|fullA) - create a driver for the bare program name / for the full path of A's copy -, ("use", i)."""
+    frontier = [()]
+    for _ in range(L):
+        nxt = []
+        for h in frontier:
+            npth = sum(1 for o in h if o[0] == "path")
+            nn = sum(1 for o in h if o[0] == "new")
+            nu = sum(1 for o in h if o[0] == "use")
+            cur = next((o[1] for o in reversed(h) if o[0] == "path"), "N")
+            ext = []
+            if npth < max_path and (not h or h[-1][0] != "path"):
+                ext += [("path", x) for x in "ABN" if x != cur]
+            if nn < max_new:
+                ext += [("new", k) for k in ("bare", "fullA")]
+            if nu < max_use:
+                ext += [("use", i) for i in range(nn)]
+            for o in ext:
+                nxt.append(h + (o,))
+        yield from nxt
+        frontier = nxt
+
+
+def path_setup(ctx):
+    root = Path(ctx.scratch) / "pathtools"
+    dirs = {}
+    for x in "AB":
+        d = root / x
+        d.mkdir(parents=True, exist_ok=True)
+        f = d / TOOL
+        f.write_text("#!/bin/sh\nexit 0\n")
+        f.chmod(0o755)
+        dirs[x] = d
+    return dirs
+
+
+def path_exec(hist, dirs, base_path):
+    """Returns per op an observation; expected executables are fixed at creation time."""
+    cls, _shared = make_binding_class("plain")
+    drivers = []  # (driver or None, expected executable or None, how created)
+    obs = []
+    old = os.environ.get("PATH")
+    cur = "N"
+    try:
+        os.environ["PATH"] = base_path
+        for step, op in enumerate(hist):
+            if op[0] == "path":
+                cur = op[1]
+                os.environ["PATH"] = base_path if cur == "N" else str(dirs[cur]) + os.pathsep + base_path
+                obs.append(("path",))
+            elif op[0] == "new":
+                name = TOOL if op[1] == "bare" else str(dirs["A"] / TOOL)
+                exp = str(dirs["A"] / TOOL) if op[1] == "fullA" else (None if cur == "N" else str(dirs[cur] / TOOL))
+                try:
+                    d = cls(name, nprocs=1 + len(drivers))
+                    drivers.append((d, exp, op[1], cur))
+                    obs.append(("new", "created", d.executable, exp))
+                except Exception as e:
+                    drivers.append((None, exp, op[1], cur))
+                    obs.append(("new", "raised-" + type(e).__name__, None, exp))
+            else:
+                d, exp, kind, at = drivers[op[1]]
+                if d is None:
+                    obs.append(("use", "no-driver", None, exp, kind, at))
+                    continue
+                try:
+                    ji = d.single.prepare(Item(f"i{step}"), f"tag{step}", level=step)
+                    obs.append(("use", "ok", shlex.split(ji.commands[0][0])[0], exp, kind, at))
+                except Exception as e:
+                    obs.append(("use", "raised-" + type(e).__name__, None, exp, kind, at))
+    finally:
+        if old is None:
+            os.environ.pop("PATH", None)
+        else:
+            os.environ["PATH"] = old
+    return obs
+
+
+def path_check_last(ctx, hist, obs, dirs):
+    op, o = hist[-1], obs[-1]
+    case = {"part": "A4", "history": [list(x) for x in hist]}
+    others = {str(dirs[x] / TOOL): x for x in "AB"}
+
+    def viol(sym, what):
+        ctx.violation(f"binding:executable:{sym}", what, case, repro=PATH_REPRO if "another-PATH" in sym else None)
+        return False
+
+    if op[0] == "new":
+        _, status, got, exp = o
+        if exp is None:
+            # the program is not on PATH when the driver is created: the unchanged code refuses (FileNotFoundError);
+            # accepted: refusing, or keeping the bare name - anything but resolving it to some copy
+            if status == "created" and got != TOOL:
+                return viol("resolved-although-not-on-PATH-at-creation", f"driver for {TOOL!r} created while it is not on PATH shows executable {got!r}")
+            return True
+        if status != "created":
+            return viol(f"creation-{status}", f"creating a driver for a program that is on PATH ({exp}) {status}")
+        if got != exp:
+            sym = "resolved-under-another-PATH-than-at-creation" if (got in others or os.path.basename(str(got)) == TOOL) else "wrong-value"
+            return viol(sym, f"driver created with PATH -> {exp} shows executable {got!r}")
+        return True
+    if op[0] == "use":
+        _, status, got, exp, kind, at = o
+        if status == "no-driver":
+            return True
+        if status != "ok":
+            return viol(f"prepare-{status}", f"prepare {status}")
+        want = exp if exp is not None else TOOL
+        if got != want:
+            sym = "resolved-under-another-PATH-than-at-creation" if (got in others or os.path.basename(str(got)) == TOOL) else "wrong-value"
+            return viol(sym, f"JobInput of a driver created ({kind}) with PATH -> {want} invokes {got!r}")
+    return True
+
+
+PATH_REPRO = """\
+import os, stat, tempfile
+from molli.pipeline.driver import DriverBase
+a, b = tempfile.mkdtemp(), tempfile.mkdtemp()
+for d in (a, b):
+    open(f"{d}/mytool", "w").write("#!/bin/sh\\n"); os.chmod(f"{d}/mytool", 0o755)
+base = os.environ["PATH"]
+os.environ["PATH"] = a + os.pathsep + base; d1 = DriverBase("mytool")
+os.environ["PATH"] = b + os.pathsep + base; d2 = DriverBase("mytool")
+print(d1.executable, d2.executable)   # expected: <a>/mytool <b>/mytool
+"""
+
+
+def path_parts(ctx, seed):
+    L, mp, mn, mu = (7, 3, 3, 3) if ctx.thorough else (6, 3, 3, 3)
+    ctx.bound["A4"] = {"max_ops": L, "PATH_changes": mp, "drivers": mn, "uses": mu, "creation": ["bare name", "full path"], "PATH": ["tool dir A first", "tool dir B first", "tool not on PATH"]}
+    return [("A4", first, L, mp, mn, mu) for first in (("path", "A"), ("path", "B"), ("new", "bare"), ("new", "fullA"))]
+
+
+def run_path_part(ctx, part):
+    _, first, L, mp, mn, mu = part
+    dirs = path_setup(ctx)
+    base_path = os.pathsep.join(p for p in os.environ.get("PATH", "").split(os.pathsep) if p and not os.path.exists(os.path.join(p, TOOL)))
+    bad: set = set()
+    n = 0
+    for hist in path_histories(L, mp, mn, mu):
+        if hist[0] != first:
+            continue
+        if any(hist[:k] in bad for k in range(1, len(hist))):
+            continue
+        obs = path_exec(hist, dirs, base_path)
+        ok = path_check_last(ctx, hist, obs, dirs)
+        n += 1
+        ctx.count(evaluations=1, traces=1, states=1, transitions=len(hist))
+        if not ok:
+            bad.add(hist)
+            continue
+        if hist[-1][0] == "use" and sum(1 for o in hist if o[0] == "path") >= 1 and sum(1 for o in hist if o[0] == "new") >= 2:
+            ctx.nontrivial(("A4", hist))
+        ctx.outcome(("A4", hashlib.sha1(repr([(o[0], o[1]) + ((o[2].rsplit("/", 2)[-2:] if isinstance(o[2], str) else o[2]),) if len(o) > 2 else o for o in obs[-1:]]).encode()).hexdigest()[:12]))
+        if n == 300 and first == ("path", "A"):
+            ctx.sample({"part": "A4", "history": [list(x) for x in hist], "observed_last": [str(x) for x in obs[-1]]})
+    ctx.add_note("A4_histories_executed", n)
+
+
+# -------------------------------------------------------------------------------------------------
+# part A5 : every job of every driver class shipped in molli/pipeline, prepare-only
+# -------------------------------------------------------------------------------------------------
+QM = [(0, 1), (1, 1), (-1, 1), (0, 3), (1, 2), (-2, 1), (2, 3)]
+CHARGE_FLAGS = ("--charge", "--chrg", "-chrg")
+UHF_FLAGS = ("--uhf", "-uhf")
+NPROC_FLAGS = ("-P", "-T", "-np")
+H2O2 = (("H", (0.9, 0.8, 0.3)), ("O", (0.0, 0.7, -0.1)), ("O", (0.0, -0.7, -0.1)), ("H", (-0.9, -0.8, 0.3)))
+
+
+def shipped_jobs():
+    """(class, [attribute names], is_vectorised) for every Job attribute of every DriverBase subclass defined in a
+    module of the molli.pipeline package - enumerated at run time."""
+    import importlib
+    import inspect
+    import pkgutil
+    import molli.pipeline as mp
+
+    out = []
+    for mi in sorted(pkgutil.iter_modules(mp.__path__), key=lambda x: x.name):
+        try:
+            mod = importlib.import_module("molli.pipeline." + mi.name)
+        except Exception:
+            continue
+        for cname, c in sorted(vars(mod).items()):
+            if inspect.isclass(c) and issubclass(c, DriverBase) and c is not DriverBase and c.__module__ == mod.__name__:
+                seen = {}
+                for n, j in vars(c).items():
+                    if isinstance(j, Job):
+                        seen.setdefault(id(j), []).append(n)
+                for names in seen.values():
+                    out.append((c, names, "prepare" in vars(c)[names[0]].__dict__))
+    return out
+
+
+def make_mol(q, m, shift=0.0):
+    import molli as ml
+
+    M = ml.Molecule(name="h2o2", charge=q, mult=m)
+    for el, xyz in H2O2:
+        M.add_atom(ml.Atom(el), [xyz[0] + shift, xyz[1], xyz[2]])
+    return M
+
+
+def make_ens(q, m, shift=0.0):
+    import molli as ml
+    import numpy as np
+
+    M = make_mol(q, m, shift)
+    E = ml.ConformerEnsemble(M, n_conformers=2, name="h2o2")
+    E.coords = np.stack([M.coords, M.coords + 1.0])
+    return E
+
+
+def ji_view(ji):
+    """What a prepared JobInput says about charge / unpaired electrons / multiplicity / processors / memory."""
+    import re
+
+    v = {"charge": [], "uhf": [], "mult": [], "nprocs": [], "maxcore": [], "memtotal": [], "tokens": []}
+    for cmd, _name in ji.commands:
+        toks = shlex.split(cmd)
+        v["tokens"] += toks
+        for i, t in enumerate(toks[:-1]):
+            if t in CHARGE_FLAGS:
+                v["charge"].append(toks[i + 1])
+            elif t in UHF_FLAGS:
+                v["uhf"].append(toks[i + 1])
+            elif t in NPROC_FLAGS:
+                v["nprocs"].append(toks[i + 1])
+    for fn, content in (ji.files or {}).items():
+        text = content.decode("utf8", "replace") if isinstance(content, (bytes, bytearray)) else str(content)
+        for mm in re.finditer(r"(?m)^\*\s*xyz(?:file)?\s+(-?\d+)\s+(-?\d+)", text):
+            v["charge"].append(mm.group(1))
+            v["mult"].append(mm.group(2))
+        for mm in re.finditer(r"(?m)^charge\s+(-?\d+)", text):
+            v["charge"].append(mm.group(1))
+        v["nprocs"] += re.findall(r"%pal\s+nprocs\s+(\d+)", text)
+        v["maxcore"] += re.findall(r"%maxcore\s+(\d+)", text)
+        v["memtotal"] += re.findall(r"memory\s+total\s+(\d+)\s+mb", text)
+    return v
+
+
+def ji_substituted(ji, charge, mult):
+    """The JobInput as (commands, files) with its charge / uhf / multiplicity tokens replaced."""
+    import re
+
+    cmds = []
+    for cmd, name in ji.commands:
+        toks = shlex.split(cmd)
+        for i, t in enumerate(toks[:-1]):
+            if t in CHARGE_FLAGS:
+                toks[i + 1] = str(charge)
+            elif t in UHF_FLAGS:
+                toks[i + 1] = str(mult - 1)
+        cmds.append((tuple(toks), name))
+    files = {}
+    for fn, content in (ji.files or {}).items():
+        text = content.decode("utf8", "replace") if isinstance(content, (bytes, bytearray)) else str(content)
+        text = re.sub(r"(?m)^(\*\s*xyz(?:file)?\s+)-?\d+(\s+)-?\d+", lambda mm: f"{mm.group(1)}{charge}{mm.group(2)}{mult}", text)
+        text = re.sub(r"(?m)^(charge\s+)-?\d+", lambda mm: f"{mm.group(1)}{charge}", text)
+        files[fn] = text
+    return cmds, files, None if ji.return_files is None else tuple(ji.return_files)
+
+
+def shipped_prepare(job, vec, first_param, q, m, over, shift=0.0):
+    import inspect
+
+    params = list(inspect.signature(job._prep).parameters)
+    obj = make_ens(q, m, shift) if (vec or first_param == "ens") else make_mol(q, m, shift)
+    kw = {k: v for k, v in over.items() if k in params}
+    if "dihedral_atoms" in params:
+        base = obj if not hasattr(obj, "n_conformers") else obj
+        kw["dihedral_atoms"] = tuple(base.atoms)
+    r = job.prepare(obj, **kw)
+    return [r] if isinstance(r, JobInput) else list(r)
+
+
+def run_shipped_part(ctx, part):
+    import inspect
+
+    jobs = shipped_jobs()
+    if len(jobs) < 4:
+        raise HarnessError(f"only {len(jobs)} shipped driver jobs found in molli.pipeline - enumeration broken?")
+    n = 0
+    found = []
+    for cls, names, vec in jobs:
+        prepname = vars(cls)[names[0]]._prep.__name__
+        label = f"{cls.__name__}.{prepname}"
+        found.append(f"{cls.__name__}.{'/'.join(names)}")
+        try:
+            drivers = [
+                cls(f"/opt/c17-fake/{cls.__name__}-one", nprocs=3, memory=6000, check_exe=False, find=False),
+                cls(f"/opt/c17-fake/{cls.__name__}-two", nprocs=5, memory=20000, check_exe=False, find=False),
+            ]
+        except Exception as e:
+            ctx.violation(f"shipped:{cls.__name__}:construction:raised-{type(e).__name__}", f"{cls.__name__}(executable, nprocs=, memory=, check_exe=False, find=False) raised {e}", {"part": "A5", "job": label})
+            continue
+        params = list(inspect.signature(vars(cls)[names[0]]._prep).parameters)
+        first_param = params[1]
+        for q, m in QM:
+            overs = [("none", {}), ("charge", {"charge": 2 if q != 2 else -1}), ("mult", {"mult": m + 2}), ("both", {"charge": 2 if q != 2 else -1, "mult": m + 2})]
+            if q != 0:
+                overs.append(("charge=0", {"charge": 0}))
+            for oname, over in overs:
+                if not all(k in params for k in over):
+                    continue
+                for di, d in enumerate(drivers):
+                    case = {"part": "A5", "cls": cls.__name__, "attr": names[0], "q": q, "m": m, "override": over, "driver": di}
+                    n += 1
+                    ctx.count(evaluations=1, traces=1, states=1, transitions=2)
+                    ok = shipped_check(ctx, case, label, d, names[0], vec, first_param, q, m, oname, over)
+                    if ok:
+                        if over or (q, m) != (0, 1):
+                            ctx.nontrivial(("A5", label, q, m, oname, di))
+                        if n == 40:
+                            ctx.sample(case)
+    ctx.note("A5_shipped_jobs", sorted(found))
+    ctx.add_note("A5_prepares_checked", n)
+    ctx.bound["A5"] = {"(charge, mult)": [list(x) for x in QM], "overrides": ["none", "charge", "mult", "both", "charge=0"], "driver_instances_per_class": 2}
+
+
+def shipped_check(ctx, case, label, d, attr, vec, first_param, q, m, oname, over):
+    job_exe, nprocs, memory = d.executable, d.nprocs, d.memory
+    ok = True
+
+    def viol(field, sym, what):
+        nonlocal ok
+        ok = False
+        ctx.violation(f"shipped:{label}:{field}:{sym}", what + f" [(q, m)=({q}, {m}), override {over}]", case, repro=SHIPPED_REPRO if sym == "override-0-ignored" else None)
+
+    try:
+        got = shipped_prepare(getattr(d, attr), vec, first_param, q, m, over)
+        ref = shipped_prepare(getattr(d, attr), vec, first_param, 0, 1, {})
+    except Exception as e:
+        viol("prepare", f"raised-{type(e).__name__}", f"prepare raised {type(e).__name__}: {str(e)[:80]}")
+        return False
+    exp_charge = over["charge"] if over.get("charge") is not None else q
+    exp_mult = over["mult"] if over.get("mult") is not None else m
+    if len(got) != len(ref):
+        viol("prepare", "number-of-inputs", f"{len(got)} JobInputs, reference molecule gives {len(ref)}")
+        return False
+    for ji, rj in zip(got, ref):
+        v = ji_view(ji)
+        for c in v["charge"]:
+            if c != str(exp_charge):
+                if oname == "charge=0" and c == str(q):
+                    sym = "override-0-ignored"
+                elif c == str(exp_mult - 1) and any(u == str(exp_charge) for u in v["uhf"]):
+                    sym = "swapped-with-uhf"
+                else:
+                    sym = "wrong-value"
+                viol("charge", sym, f"the prepared input says charge {c}, expected {exp_charge}")
+        for u in v["uhf"]:
+            if u != str(exp_mult - 1):
+                sym = "swapped-with-charge" if (u == str(exp_charge) and any(c == str(exp_mult - 1) for c in v["charge"])) else "wrong-value"
+                viol("uhf", sym, f"the prepared input says {u} unpaired electrons, expected multiplicity-1 = {exp_mult - 1}")
+        for mu in v["mult"]:
+            if mu != str(exp_mult):
+                viol("mult", "wrong-value", f"the prepared input says multiplicity {mu}, expected {exp_mult}")
+        if job_exe not in v["tokens"]:
+            viol("executable", "not-this-drivers", f"the command {v['tokens'][:3]} does not invoke this driver's executable {job_exe}")
+        for npv in v["nprocs"]:
+            if npv != str(nprocs):
+                viol("nprocs", "not-this-drivers", f"processors {npv}, this driver has nprocs={nprocs}")
+        for mc_ in v["maxcore"]:
+            if mc_ != str(memory // nprocs):
+                viol("memory", "not-this-drivers", f"%maxcore {mc_}, this driver has memory // nprocs = {memory // nprocs}")
+        for mt in v["memtotal"]:
+            if mt != str(memory):
+                viol("memory", "not-this-drivers", f"memory total {mt}, this driver has memory={memory}")
+        if ok:
+            # apart from the charge / uhf / multiplicity tokens the input equals the one of the neutral singlet
+            if ji_substituted(ji, 0, 1) != ji_substituted(rj, 0, 1):
+                viol("input", "differs-from-reference-beyond-charge-and-multiplicity", "commands / files differ from those prepared for the neutral singlet in more than the charge and multiplicity tokens")
+    if ok and oname == "none" and (q, m) == (0, 1):
+        # the input files carry the item's own geometry: a shifted copy of the molecule must show its own coordinates
+        try:
+            shifted = shipped_prepare(getattr(d, attr), vec, first_param, 0, 1, {}, shift=2.5)
+        except Exception as e:
+            viol("prepare", f"raised-{type(e).__name__}", f"prepare of a shifted molecule raised {e}")
+            return False
+        import re
+
+        for ji in shifted[:1]:
+            text = "\n".join((c.decode("utf8", "replace") if isinstance(c, (bytes, bytearray)) else str(c)) for c in (ji.files or {}).values())
+            xs = [float(mm.group(1)) for mm in re.finditer(r"(?m)^\s*[A-Z][a-z]?\s+(-?\d+\.\d+)\s+-?\d+\.\d+\s+-?\d+\.\d+", text)]
+            want = [a[1][0] + 2.5 for a in H2O2]
+            if len(xs) < 4 or any(abs(a - b) > 2e-3 for a, b in zip(xs[:4], want)):
+                viol("geometry", "not-the-items-own-coordinates", f"the input files show x coordinates {xs[:4]}, the molecule has {want}")
+    return ok
+
+
+SHIPPED_REPRO = """\
+import molli as ml
+from molli.pipeline.xtb import XTBDriver
+M = ml.Molecule(name="cation", charge=1, mult=1)
+M.add_atom(ml.Atom("H"), [0.0, 0.0, 0.0])
+d = XTBDriver("/opt/fake/xtb", check_exe=False, find=False)
+print(d.energy_m.prepare(M, charge=0).commands)   # the caller overrides the charge with 0; observed '--charge 1' (`charge or M.charge`)
+"""
+
+
+def shipped_parts(ctx, seed):
+    return [("A5",)]
+
+
 # =================================================================================================
 # part B : execution
 # =================================================================================================
@@ -1221,6 +1633,22 @@ def execute(ctx, spec, via, wd: Path):
     sdir = _fresh(wd / "scratch")
     idir = _fresh(wd / "in")
     home = _fresh(wd / "cwd")
+    inv = spec.get("inv")
+    if inv is not None:
+        # how the runner is invoked: a project directory with inputs/ and results/, a scratch area elsewhere,
+        # the caller sits in the project or in a third directory and spells each path absolutely / relatively
+        proj = _fresh(wd / "project")
+        third = _fresh(wd / "third")
+        idir = proj / "inputs"
+        idir.mkdir()
+        home = proj if inv["cwd"] == "project" else third
+        if inv["o_target"] == "existing":
+            odir = proj / "results"
+            odir.mkdir()
+        else:
+            odir = proj / "new" / "deep" / "results"  # does not exist yet
+        if inv["s"] == "rel-new":
+            sdir = home / "scr_rel"  # does not exist yet
     drv = exec_driver(spec["env"])
     if spec.get("kind") == "paths":
         ji = drv.paths.prepare(Item("job17"), spec=spec, mdir=mdir)
@@ -1228,6 +1656,20 @@ def execute(ctx, spec, via, wd: Path):
         ji = drv.script.prepare(Item("job17"), spec=spec, mdir=mdir)
     inp = idir / "case.inp"
     ji.dump(inp)
+
+    def spell(target, form):
+        if form == "abs":
+            return str(target)
+        rel = os.path.relpath(target, home)
+        if form == "rel":
+            return rel
+        return os.path.join("..", home.name, rel)  # through the parent: a relative path with '..' in it
+
+    if inv is None:
+        a_inp, a_out, a_scr = str(inp), str(odir), str(sdir)
+    else:
+        a_inp, a_out = spell(inp, inv["inp"]), spell(odir, inv["o"])
+        a_scr = spell(sdir, "rel" if inv["s"] == "rel-new" else inv["s"])
     obs = {"via": via, "hash": ji.hash, "exc": None, "exit": None, "stderr_tail": ""}
     penv = proc_env(spec["env"])
     cwd0 = os.getcwd()
@@ -1238,7 +1680,7 @@ def execute(ctx, spec, via, wd: Path):
             os.environ.pop(v, None)
         os.environ.update(penv)
         os.chdir(home)
-        sys.argv = ["_molli_run", str(inp), "-o", str(odir), "-s", str(sdir)]
+        sys.argv = ["_molli_run", a_inp, "-o", a_out, "-s", a_scr]
         sys.stdin = _NoClose()  # the builtin exit() closes sys.stdin before raising SystemExit
         err = io.StringIO()
         try:
@@ -1273,7 +1715,7 @@ def execute(ctx, spec, via, wd: Path):
         env["PYTHONPATH"] = repo + (os.pathsep + env["PYTHONPATH"] if env.get("PYTHONPATH") else "")
         try:
             p = subprocess.run(
-                [str(_jobmod.MOLLI_RUN), str(inp), "-o", str(odir), "-s", str(sdir)],
+                [str(_jobmod.MOLLI_RUN), a_inp, "-o", a_out, "-s", a_scr],
                 cwd=home,
                 env=env,
                 stdout=subprocess.PIPE,
@@ -1298,7 +1740,10 @@ def execute(ctx, spec, via, wd: Path):
             obs["out"] = JobOutput.load(of)
         except Exception as e:
             obs["out_error"] = type(e).__name__
-    obs["other_outputs"] = sorted(p.name for p in odir.iterdir() if p.name != "case.out")
+    obs["other_outputs"] = sorted(p.name for p in odir.iterdir() if p.name != "case.out") if odir.is_dir() else []
+    if inv is not None:
+        # a JobOutput written anywhere else than where the caller asked for it
+        obs["stray_outputs"] = sorted(str(p.relative_to(wd)) for p in wd.rglob("case.out") if p != of)
     try:
         obs["order"] = [int(x) for x in (mdir / "order").read_text().split()]
     except FileNotFoundError:
@@ -1316,7 +1761,7 @@ def execute(ctx, spec, via, wd: Path):
         elif p.name.startswith("env"):
             idx, var = p.name[3:].split("_", 1)
             obs["envs"].setdefault(int(idx), {})[var] = p.read_bytes().decode("utf8", "replace")
-    obs["residue"] = sorted(p.name for p in sdir.iterdir())
+    obs["residue"] = sorted(p.name for p in sdir.iterdir()) if sdir.is_dir() else []
     obs["home"] = os.path.realpath(home)
     obs["sdir"] = os.path.realpath(sdir)
     return obs
@@ -1344,9 +1789,13 @@ def check_exec(ctx, spec, obs, case):
         # exits non-zero) instead of writing a JobOutput - see assumptions
         crashed_on_unstartable = True
     elif obs["exc"] is not None:
+        icls = ""
+        if spec.get("inv") is not None:
+            iv = spec["inv"]
+            icls = ":invocation[" + ("relative:" + "+".join(k for k in ("inp", "o", "s") if iv[k] != "abs") if any(iv[k] != "abs" for k in ("inp", "o", "s")) else "all-absolute") + "]"
         viol(
             "exception-escapes",
-            f"{obs['exc']}:{spec_class(spec)}",
+            f"{obs['exc']}:{spec_class(spec)}{icls}",
             f"run_local raised {obs['exc']}: {obs.get('exc_msg','')} ({spec_class(spec)}; via {obs['via']})",
             repro=NONE_REPRO if spec["ret"] is None else None,
         )
@@ -1402,6 +1851,10 @@ def check_exec(ctx, spec, obs, case):
     out = obs["out"]
     if out is None and crashed_on_unstartable:
         pass
+    elif out is None and spec.get("inv") is not None:
+        iv = spec["inv"]
+        cls = ("relative:" + "+".join(k for k in ("inp", "o", "s") if iv[k] != "abs")) if any(iv[k] != "abs" for k in ("inp", "o", "s")) else "all-absolute"
+        viol("output", f"no-JobOutput-where-the-caller-asked-for-it[{cls}]", f"no readable case.out in the requested output directory (invocation {iv}; found elsewhere: {obs.get('stray_outputs')}; {obs.get('exc') or obs.get('out_error')})")
     elif out is None:
         viol("output", "no-readable-JobOutput", f"no readable <stem>.out in the output dir ({obs.get('out_error')}; other files {obs['other_outputs']})")
     else:
@@ -1575,6 +2028,30 @@ def path_specs(ctx, seed):
     return out
 
 
+def invocation_specs(ctx, seed):
+    """How the runner is invoked: input path / -o / -s spelled absolutely, relatively, relatively through '..';
+    output directory existing or nested and not yet existing; scratch directory existing or not; the caller's
+    cwd is the project directory or a third one.  Every combination, for a succeeding, a failing and an
+    incomplete job."""
+    jobs = [
+        (["Wa"], [True], ["a.dat"]),
+        (["P", "X"], [True, False], []),
+        (["P"], [False], ["a.dat"]),
+    ]
+    forms = ["abs", "rel", "dotdot"]
+    forms = forms[seed % 3 :] + forms[: seed % 3]
+    out = []
+    for c, n, r in jobs:
+        for cwd in ("project", "third"):
+            for fi in forms:
+                for fo in forms:
+                    for ot in ("existing", "nested-new"):
+                        for fs in forms + ["rel-new"]:
+                            out.append({"cmds": c, "named": n, "ret": r, "infile": None, "env": None, "inv": {"inp": fi, "o": fo, "o_target": ot, "s": fs, "cwd": cwd}})
+    ctx.bound["B_invocation"] = {"input_path/-o/-s": ["abs", "rel", "dotdot"], "-s also": "relative and not yet existing", "output_dir": ["existing", "nested, not yet existing"], "cwd": ["project", "third directory"], "jobs": "succeeds with a file / command fails / requested file missing"}
+    return out
+
+
 def conformance_specs(ctx, specs, seed):
     """Cases that are also pushed through the installed `_molli_run` console script."""
     if ctx.thorough:
@@ -1638,7 +2115,7 @@ def conformance_specs(ctx, specs, seed):
 
 
 def spec_key(spec, via):
-    return (via, tuple(spec["cmds"]), tuple(spec["named"]), None if spec["ret"] is None else tuple(spec["ret"]), spec["infile"], spec["env"], tuple(spec.get("written", ())))
+    return (via, tuple(spec["cmds"]), tuple(spec["named"]), None if spec["ret"] is None else tuple(spec["ret"]), spec["infile"], spec["env"], tuple(spec.get("written", ())), tuple(sorted((spec.get("inv") or {}).items())))
 
 
 def run_part(sub, part):
@@ -1648,6 +2125,10 @@ def run_part(sub, part):
         return run_lifetime_part(sub, part)
     if part[0] == "A3":
         return run_call_part(sub, part)
+    if part[0] == "A4":
+        return run_path_part(sub, part)
+    if part[0] == "A5":
+        return run_shipped_part(sub, part)
     return run_cases(sub, part)
 
 
@@ -1658,6 +2139,25 @@ def run_cases(sub, part):
     for spec in specs:
         case = {"part": "B", "via": via, "spec": spec}
         obs = execute(sub, spec, via, wd)
+        if spec.get("inv") is not None:
+            # a failing invocation case is first reduced to the smallest set of relatively spelled paths that still
+            # fails (each one is put back to its absolute spelling in turn), so that the signature names the cause
+            from mc.core import Ctx as _Ctx
+
+            probe = _Ctx(sub.pid, sub.tier, sub.seed, sub.level, None)
+            if check_exec(probe, spec, obs, case):
+                cur = spec
+                for field in ("inp", "s", "o"):
+                    if cur["inv"][field] == "abs":
+                        continue
+                    trial = dict(cur, inv=dict(cur["inv"], **{field: "abs"}))
+                    tprobe = _Ctx(sub.pid, sub.tier, sub.seed, sub.level, None)
+                    tobs = execute(sub, trial, via, wd)
+                    if check_exec(tprobe, trial, tobs, case):
+                        cur = trial
+                spec = cur
+                case = {"part": "B", "via": via, "spec": spec}
+                obs = execute(sub, spec, via, wd)
         nv = check_exec(sub, spec, obs, case)
         key = spec_key(spec, via)
         sub.count(evaluations=1, traces=1, states=1, transitions=1 + len(obs["order"]))
@@ -1697,7 +2197,10 @@ def execution_parts(ctx, seed):
     specs = enumerate_specs(ctx, seed)
     conf = conformance_specs(ctx, specs, seed)
     pspecs = path_specs(ctx, seed)
-    specs = specs + pspecs
+    ispecs = invocation_specs(ctx, seed)
+    specs = specs + pspecs + ispecs
+    # through the console script: the succeeding job, every spelling of -o x both output dirs x both cwds
+    conf = conf + [x for x in ispecs if x["cmds"] == ["Wa"] and x["inv"]["inp"] == "rel" and x["inv"]["s"] == "rel-new"]
     # through the console script: each path alone (produced), and one mixed request
     conf = conf + [p for p in pspecs if len(p["ret_labels"]) == 1 and p["written"]] + [p for p in pspecs if set(p["ret_labels"]) == {"top", "dir1", "dir2"} and len(p["written"]) in (0, 3)]
     nproc = 16 if ctx.thorough else 8
@@ -1734,11 +2237,32 @@ def run(ctx):
     ]
     parts = execution_parts(ctx, seed)
     nscript = sum(1 for p in parts if p[0] == "script")
-    parts = parts[:nscript] + binding_parts(ctx, seed) + lifetime_parts(ctx, seed) + call_parts(ctx, seed) + parts[nscript:]
+    parts = parts[:nscript] + binding_parts(ctx, seed) + lifetime_parts(ctx, seed) + call_parts(ctx, seed) + path_parts(ctx, seed) + shipped_parts(ctx, seed) + parts[nscript:]
     ctx.pmap(run_part, parts, nproc=16 if ctx.thorough else 8)
 
 
 def replay(ctx, case):
+    if case.get("part") == "A5":
+        import inspect
+
+        for cls, names, vec in shipped_jobs():
+            if cls.__name__ == case["cls"] and case["attr"] in names:
+                prepname = vars(cls)[names[0]]._prep.__name__
+                ds = [
+                    cls(f"/opt/c17-fake/{cls.__name__}-one", nprocs=3, memory=6000, check_exe=False, find=False),
+                    cls(f"/opt/c17-fake/{cls.__name__}-two", nprocs=5, memory=20000, check_exe=False, find=False),
+                ]
+                params = list(inspect.signature(vars(cls)[names[0]]._prep).parameters)
+                over = case["override"]
+                oname = "charge=0" if over == {"charge": 0} else "x" if over else "none"
+                shipped_check(ctx, case, f"{cls.__name__}.{prepname}", ds[case["driver"]], names[0], vec, params[1], case["q"], case["m"], oname, over)
+        return
+    if case.get("part") == "A4":
+        dirs = path_setup(ctx)
+        base_path = os.pathsep.join(p for p in os.environ.get("PATH", "").split(os.pathsep) if p and not os.path.exists(os.path.join(p, TOOL)))
+        hist = tuple(tuple(x) for x in case["history"])
+        path_check_last(ctx, hist, path_exec(hist, dirs, base_path), dirs)
+        return
     if case.get("part") == "A3":
         got, exp, exc = call_exec(ctx, case["entry"], case["conv"])
         call_check(ctx, case["entry"], case["conv"], got, exp, exc)
